@@ -157,6 +157,10 @@ def no_overflow_add(p, a, b):
             for f in list(p.facts) + p.payload_facts.get(x, []):
                 if len(f) == 3 and f[0] == "lt" and f[1] == x:
                     return "x < y entails x + 1 <= y"
+        # y (<|<=) L - x by a dominating guard => x + y <= L
+        for f in list(p.facts) + p.payload_facts.get(y, []):
+            if len(f) == 3 and f[0] in ("lt", "le") and f[1] == y and f[2][0] == "bin" and f[2][1] == "Sub" and unref(f[2][3]) == x:
+                return "y <= L - x (guard) entails x + y <= L"
         # y <= L - x (a difference that is itself checked not to underflow) => x + y <= L
         for z in subterms(y):
             if z[0] == "bin" and z[1] == "Sub" and unref(z[3]) == x and p.le(y, z):
@@ -215,6 +219,10 @@ def rule_ovf(env, shared):
                                fmt(a)[:90], fmt(b)[:90], " on a pull path of %s" % u.world["name"] if u else "")))
             elif op == "Add":
                 ta, tb = tainted(env, e.args[0], top_body), tainted(env, e.args[1], top_body)
+                if (ta or tb) and no_overflow_add(p, a, b):
+                    put(Ob("OVF", key, "ok", e.loc(), "no overflow: the caller-chosen operand is bounded by a dominating guard: "
+                           + no_overflow_add(p, a, b), True))
+                    return
                 if ta or tb:
                     put(Ob("OVF", key, "viol", e.loc(),
                            "unbounded operand in an unchecked-width addition: %s is added to %s; with a chunk size near "
@@ -472,7 +480,7 @@ def rule_zero(env, shared):
             and b.name != m.buffered_next.name and any(tr == R.T_CHUNK and nm == "chunk_size" for tr, nm, _ in calls)
         if is_algo or is_ctor:
             targets.append(b)
-    def positive_assertions(b):
+    def positive_assertions(b, depth=0):
         """[(asserted term, set of blocks that run only after the assertion passed)] for assertions `x > 0` of b that
         dominate all of its work"""
         ctx = env.ctx(b, F.impl_self_adt(b), None)
@@ -507,6 +515,24 @@ def rule_zero(env, shared):
                         bad = True
                 if not bad:
                     res.append((subject, set(work)))
+        # a call of a crate-local function that itself does nothing but assert its argument positive
+        # (`fn assert_positive(n) { assert!(n > 0) }`) asserts the argument passed
+        if depth < 2:
+            for bi, t, c in b.calls():
+                if b.blocks[bi]["cleanup"] or c.indirect or not c.local or c.def_ not in F.bodies:
+                    continue
+                hb = F.bodies[c.def_]
+                if hb.is_closure or any(c2.local for bj, _t2, c2 in hb.calls() if not hb.blocks[bj]["cleanup"]):
+                    continue
+                for (subj, _w) in positive_assertions(hb, depth + 1):
+                    if subj[0] == "param" and subj[1] - 1 < len(t["args"]) and t.get("target") is not None:
+                        subject = unref(env.ev.operand(ctx, t["args"][subj[1] - 1]))
+                        work = [x for x in range(len(b.blocks)) if not b.blocks[x]["cleanup"] and x in b.reachable(t["target"])]
+                        pre = [x for x in b.reachable(0) if x not in work and x != bi and not _reaches_only_panic(b, x)
+                               and not b.blocks[x]["cleanup"]]
+                        if not any(b.callee(x) is not None and not (b.callee(x).name in ("chunk_size",)
+                                                                   or b.callee(x).trait == R.T_CHUNK) for x in pre):
+                            res.append((subject, set(work)))
         return res
 
     from r_ticket import all_callers
